@@ -218,6 +218,11 @@ def trange (unscale : Bool) (t : Trait α) : Option α :=
   if unscale then omul (colPtp t.mat) t.scale else colPtp t.mat
 /-- `location if unscale else mat.mean(axis=0)` -/
 def tmean (unscale : Bool) (t : Trait α) : Option α := if unscale then t.loc else colMean t.mat
+/-- the mean on the original scale RECOMPUTED from the stored column in the shape of `tmax` / `tmin`
+    (`out = mat.mean(axis=0); out *= scale; out += location`, numpy's NaN-propagating `mean`).  Not the code as it
+    is; kept for `C15.tmean_recomputed_complete` / `C15.tmean_recomputed_counterexample` (round 5: equal to the
+    stored location for complete data, NaN for the whole trait as soon as one taxon has no record). -/
+def tmeanRecomputed (t : Trait α) : Option α := oadd (omul (colMean t.mat) t.scale) t.loc
 /-- `scale * numpy.nanstd(mat, axis=0) if unscale else mat.std(axis=0)`   (as of fix 94b833ce) -/
 def tstd (sq : α → α) (unscale : Bool) (t : Trait α) : Option α :=
   if unscale then omul t.scale ((nanvar t.mat).map sq) else (colVar t.mat).map sq
